@@ -165,6 +165,39 @@ func checkSummary(v *vcase.Verdict, c Case, xs []float64) {
 				v.Failf("warning %q does not name the confidence level %v", sum.Warnings[0], c.Confidence)
 				return
 			}
+			// The warning must agree with what Summary itself does at that level (this
+			// holds at any level, also where rounding in the binomial tail makes the
+			// implementation need more samples than the ideal count below): with
+			// "need >= k" a sample of k values has a finite interval and one of k-1
+			// values has not; with "need > k" a sample of k values has not.
+			probe := func(k int) (finite bool) {
+				ys := make([]float64, k)
+				for i := range ys {
+					ys[i] = float64(i + 1)
+				}
+				ps := a.Summary(benchmath.NewSample(ys, &benchmath.DefaultThresholds), c.Confidence)
+				return !math.IsInf(ps.Lo, 0) && !math.IsInf(ps.Hi, 0)
+			}
+			switch {
+			case m[1] == ">=" && got >= 1 && got <= 1000:
+				if !probe(got) {
+					v.Failf("warning %q, but a sample of %d values still has an infinite interval at that level", sum.Warnings[0], got)
+					return
+				}
+				if got > 2 && probe(got-1) {
+					v.Failf("warning %q, but a sample of %d values already has a finite interval at that level", sum.Warnings[0], got-1)
+					return
+				}
+			case m[1] == ">" && got >= 1 && got <= 1000:
+				v.Label("need_more_than_limit")
+				if probe(got) {
+					v.Failf("warning %q, but a sample of %d values has a finite interval at that level", sum.Warnings[0], got)
+					return
+				}
+			}
+			if c.Confidence > 1-1e-9 {
+				v.Label("extreme_confidence_warning")
+			}
 			// smallest n with 1 - 2^(1-n) >= confidence
 			if c.Confidence <= 1-0x1p-27 {
 				need := 2
@@ -176,8 +209,18 @@ func checkSummary(v *vcase.Verdict, c Case, xs []float64) {
 					v.Failf("warning %q: the smallest sample count with a finite interval at level %v is %d", sum.Warnings[0], c.Confidence, need)
 					return
 				}
-				if n >= need && !near {
-					v.Failf("AssumeNothing.Summary(n=%d, %v): infinite interval although %d samples suffice", n, c.Confidence, need)
+			}
+			// The warning must not contradict the sample at hand: "need >= k" on a
+			// sample that has k or more values.
+			if m[1] == ">=" && n >= got {
+				// Finding C13-c: go-moremath's QuantileCI switches to a normal
+				// approximation above 30 samples, which at levels beyond about
+				// 1-7e-8 is more conservative than the exact binomial interval that
+				// k <= 30 samples get.
+				if n > 30 && got <= 30 && vcase.KnownListed("C13-c") {
+					v.KnownHit("C13-c")
+				} else {
+					v.Failf("AssumeNothing.Summary(n=%d, %v): infinite interval with warning %q although the sample has %d values", n, c.Confidence, sum.Warnings[0], n)
 					return
 				}
 			}
@@ -541,7 +584,14 @@ func Gen(t *rapid.T) Case {
 			c.X2[i] *= 1.5
 		}
 	}
-	switch rapid.IntRange(0, 3).Draw(t, "confk") {
+	switch rapid.IntRange(0, 4).Draw(t, "confk") {
+	case 4:
+		// levels so close to 1 that up to (and beyond) 50 samples are needed for a finite interval
+		if rapid.Bool().Draw(t, "extremeform") {
+			c.Confidence = 1 - rapid.Float64Range(0.5, 30).Draw(t, "extreme_u")*1e-12
+		} else {
+			c.Confidence = 1 - math.Pow(10, -rapid.Float64Range(7, 13.5).Draw(t, "extreme_e"))
+		}
 	case 0:
 		c.Confidence = rapid.SampledFrom([]float64{0.5, 0.8, 0.9, 0.95, 0.99, 0.999}).Draw(t, "conf")
 	case 1:
